@@ -27,11 +27,23 @@ theorem Store.inv_insert (s : Store) (o : Obj) (h : s.Inv) :
     · exact Nat.lt_succ_of_lt (hb x hx)
     · exact Nat.lt_succ_self _
 
+theorem Store.Inv.unique {s : Store} (hi : s.Inv) {a b : Obj} (ha : a ∈ s.objs) (hb : b ∈ s.objs)
+    (h : a.uid = b.uid) : a = b := by
+  rcases List.mem_iff_getElem.mp ha with ⟨i, hi', rfl⟩
+  rcases List.mem_iff_getElem.mp hb with ⟨j, hj', rfl⟩
+  by_cases hij : i = j
+  · subst hij; rfl
+  · exfalso
+    rcases Nat.lt_or_gt_of_ne hij with hlt | hlt
+    · have := List.pairwise_iff_getElem.mp hi.1 i j hi' hj' hlt; omega
+    · have := List.pairwise_iff_getElem.mp hi.1 j i hj' hi' hlt; omega
+
 theorem Store.insert_nextUid (s : Store) (mk : Nat → Obj) : (s.insert mk).1.nextUid = s.nextUid + 1 := rfl
 
 theorem Store.insertAll_spec (s : Store) (os : List Obj) (h : s.Inv) :
     (s.insertAll os).Inv ∧ s.nextUid ≤ (s.insertAll os).nextUid ∧
-    (∀ x ∈ (s.insertAll os).objs, x ∈ s.objs ∨ s.nextUid ≤ x.uid) := by
+    (∀ x ∈ (s.insertAll os).objs, x ∈ s.objs ∨
+        (s.nextUid ≤ x.uid ∧ ∃ o ∈ os, x = { o with uid := x.uid })) := by
   induction os generalizing s with
   | nil => exact ⟨h, Nat.le_refl _, fun x hx => Or.inl hx⟩
   | cons o os ih =>
@@ -40,12 +52,12 @@ theorem Store.insertAll_spec (s : Store) (os : List Obj) (h : s.Inv) :
     have ih' := ih (s.insert (fun n => { o with uid := n })).1 h1
     refine ⟨ih'.1, Nat.le_trans (Nat.le_succ _) ih'.2.1, ?_⟩
     intro x hx
-    rcases ih'.2.2 x hx with hx' | hx'
+    rcases ih'.2.2 x hx with hx' | ⟨hx', o2, ho2, hxo⟩
     · simp only [Store.insert, List.mem_append, List.mem_singleton] at hx'
       rcases hx' with hx' | rfl
       · exact Or.inl hx'
-      · exact Or.inr (Nat.le_refl _)
-    · exact Or.inr (Nat.le_of_succ_le hx')
+      · exact Or.inr ⟨Nat.le_refl _, o, List.mem_cons_self, rfl⟩
+    · exact Or.inr ⟨Nat.le_of_succ_le hx', o2, List.mem_cons_of_mem _ ho2, hxo⟩
 
 theorem Store.inv_update (s : Store) (o' : Obj) (h : s.Inv) : (s.update o'.uid (fun _ => o')).Inv := by
   obtain ⟨hp, hb⟩ := h
@@ -91,7 +103,7 @@ theorem applyEffect_inv (e : Engine) (eff : Effect) (h : e.store.Inv) :
     refine ⟨hs.1, hs.2.1, fun x hx => ?_⟩
     rcases hs.2.2 x hx with hx' | hx'
     · exact Or.inl ⟨x, hx', rfl⟩
-    · exact Or.inr hx'
+    · exact Or.inr hx'.1
   | update o' =>
     refine ⟨Store.inv_update _ _ h, Nat.le_refl _, fun x hx => ?_⟩
     simp only [applyEffect, Store.update, List.mem_map] at hx
